@@ -177,7 +177,7 @@ Qed.
 Definition vlastc (d : dstate) (id : uri) : option content := option_map en_c (last_opt (versions_of d id)).
 
 Definition dup_instr (prev v : entry) (w : Z) (is_last : bool) : instr :=
-  {| i_del := Some (key_of v); i_weight := w; i_repoint := if is_last then Some (key_of prev) else None |}.
+  {| i_del := Some (key_of v); i_weight := w; i_repoint := if is_last then Some (key_of prev) else None; i_shared := false |}.
 
 Lemma versions_after_del d i id' :
   versions_of (apply_flush cf_fixed d [i]) id'
@@ -295,13 +295,14 @@ Proof.
     + (* duplicate of the comparison base: removed *)
       destruct q as [|i0 q].
       { rewrite apply_flush_nil. split; [now apply inv_rel_refl | reflexivity]. }
-      cbn [app] in Hq. injection Hq as Hi0 Hq. subst i0.
+      cbn [app] in Hq. injection Hq as Hi0 Hq.
+      set (w := if false || negb (Z.eqb (en_time prev) (en_time v)) then 1 + 2 * ref_targets (en_c v) else 1).
+      assert (Ei : i0 = dup_instr prev v w (match vs with [] => true | _ => false end))
+        by (rewrite <- Hi0; reflexivity).
+      rewrite Ei. clear Hi0 Ei i0.
       rewrite apply_flush_cons.
-      destruct (dup_step d id pre prev v vs (1 + 2 * ref_targets (en_c v)) Hd Hv) as (Hd1 & Hn1 & Hv1 & Ho1 & He1).
-      change {| i_del := Some (key_of v); i_weight := 1 + 2 * ref_targets (en_c v);
-                i_repoint := if match vs with [] => true | _ :: _ => false end then Some (key_of prev) else None |}
-        with (dup_instr prev v (1 + 2 * ref_targets (en_c v)) (match vs with [] => true | _ => false end)).
-      set (d1 := apply_flush cf_fixed d [dup_instr prev v (1 + 2 * ref_targets (en_c v)) (match vs with [] => true | _ => false end)]) in *.
+      destruct (dup_step d id pre prev v vs w Hd Hv) as (Hd1 & Hn1 & Hv1 & Ho1 & He1).
+      set (d1 := apply_flush cf_fixed d [dup_instr prev v w (match vs with [] => true | _ => false end)]) in *.
       destruct (IH prev pre d1 q rest Hd1 Hv1 Hq) as [Hr Ho].
       split.
       * eapply inv_rel_trans; [|exact Hr]. constructor; [exact Hd1 | exact Hn1 | |].
@@ -320,8 +321,8 @@ Proof.
         cbn [cf_fixed cf_stale_prev] in Hq.
         destruct q as [|i0 q].
         { rewrite apply_flush_nil. split; [now apply inv_rel_refl | reflexivity]. }
-        cbn [app] in Hq. injection Hq as Hi0 Hq. subst i0.
-        rewrite apply_flush_cons, apply_flush_noop by reflexivity.
+        cbn [app] in Hq. injection Hq as Hi0 Hq.
+        rewrite apply_flush_cons, apply_flush_noop by (rewrite <- Hi0; reflexivity).
         exact (IH v (pre ++ [prev]) d q rest Hd Hv' Hq).
       * exact (IH v (pre ++ [prev]) d q rest Hd Hv' Hq).
 Qed.
@@ -395,4 +396,160 @@ Theorem inv_rel_latest d d' : cinv d -> inv_rel d d' ->
   forall id, oc_same (stored_latest d' id) (stored_latest d id) = true.
 Proof.
   intros Hd Hr id. rewrite (cinv_latest _ Hd), (cinv_latest _ (ir_inv _ _ Hr)), <- !vlastc_current. apply (ir_last _ _ Hr).
+Qed.
+
+(** ** 5. the complete run of the repaired strategy leaves exactly the de-duplicated feed *)
+Lemma identical_cong_l a b c : identical a b = true -> identical a c = identical b c.
+Proof.
+  intros H. destruct (identical a c) eqn:E1, (identical b c) eqn:E2; try reflexivity.
+  - rewrite identical_sym in H. rewrite (identical_trans _ _ _ H E1) in E2. discriminate.
+  - rewrite (identical_trans _ _ _ H E2) in E1. discriminate.
+Qed.
+
+Lemma vkey_eqb_sym a b : vkey_eqb a b = vkey_eqb b a.
+Proof. unfold vkey_eqb. now rewrite (Z.eqb_sym (fst a)), (Z.eqb_sym (fst (snd a))), (Z.eqb_sym (snd (snd a))). Qed.
+
+Lemma del_keys_cons i g : del_keys (i :: g) = match i_del i with Some k => [k] | None => [] end ++ del_keys g.
+Proof. reflexivity. Qed.
+
+(** no instruction of a pass names a key outside the versions it walks *)
+Lemma pass_keys_absent cf eqb k : forall vs prev,
+  (forall x, In x vs -> vkey_eqb k (key_of x) = false) ->
+  kmem k (del_keys (entity_pass cf eqb prev vs)) = false.
+Proof.
+  induction vs as [|v vs IH]; intros prev H; cbn [entity_pass]; [reflexivity|].
+  assert (Hv : vkey_eqb k (key_of v) = false) by (apply H; now left).
+  assert (Hvs : forall x, In x vs -> vkey_eqb k (key_of x) = false) by (intros; apply H; now right).
+  destruct (eqb (en_c prev) (en_c v)).
+  - rewrite del_keys_cons. cbn [i_del app kmem existsb]. rewrite Hv. cbn [orb]. now apply IH.
+  - destruct (0 <? _); [rewrite del_keys_cons; cbn [i_del app]|]; now apply IH.
+Qed.
+
+Definition lastc (pimm : entry) (M : list entry) : entry := match last_opt M with Some x => x | None => pimm end.
+
+Lemma pass_char e L2 : forall M prev pimm,
+  identical (en_c prev) (en_c pimm) = true ->
+  (forall x, In x (M ++ L2) -> vkey_eqb (key_of e) (key_of x) = false) ->
+  kmem (key_of e) (del_keys (entity_pass cf_fixed identical prev (M ++ e :: L2)))
+  = identical (en_c (lastc pimm M)) (en_c e).
+Proof.
+  induction M as [|m M IH]; intros prev pimm Hpp Hk; cbn [app entity_pass].
+  - unfold lastc. cbn [last_opt]. rewrite <- (identical_cong_l _ _ (en_c e) Hpp).
+    destruct (identical (en_c prev) (en_c e)).
+    + rewrite del_keys_cons. cbn [i_del app kmem existsb]. now rewrite vkey_eqb_refl.
+    + destruct (0 <? _); [rewrite del_keys_cons; cbn [i_del app]|]; apply pass_keys_absent; exact Hk.
+  - assert (Hm : vkey_eqb (key_of e) (key_of m) = false) by (apply Hk; now left).
+    assert (Hk' : forall x, In x (M ++ L2) -> vkey_eqb (key_of e) (key_of x) = false) by (intros; apply Hk; now right).
+    assert (Hl : forall p, lastc p (m :: M) = lastc m M).
+    { intros p. unfold lastc. cbn [last_opt]. destruct (last_opt M); reflexivity. }
+    rewrite Hl.
+    destruct (identical (en_c prev) (en_c m)) eqn:Hid.
+    + rewrite del_keys_cons. cbn [i_del app kmem existsb]. rewrite Hm. cbn [orb]. now apply IH.
+    + cbn [cf_fixed cf_stale_prev].
+      destruct (0 <? _); [rewrite del_keys_cons; cbn [i_del app]|]; apply IH; auto using identical_refl.
+Qed.
+
+(** keys named by the pass of another entity never match *)
+Lemma entity_keys_other cf eqb d id e : en_id e <> id ->
+  kmem (key_of e) (del_keys (entity_instrs cf eqb d id)) = false.
+Proof.
+  intros Hne. unfold entity_instrs. destruct (versions_of d id) as [|v vs] eqn:Ev; [reflexivity|].
+  apply pass_keys_absent. intros x Hx.
+  assert (Hidx : en_id x = id).
+  { apply (has_id_in id x (d_entries d)). change (In x (versions_of d id)). rewrite Ev. now right. }
+  unfold vkey_eqb, key_of. cbn [fst snd].
+  replace (Z.eqb (en_id e) (en_id x)) with false; [reflexivity|]. symmetry. apply Z.eqb_neq. congruence.
+Qed.
+
+Lemma del_keys_flat_map {A} (f : A -> list instr) l : del_keys (flat_map f l) = flat_map (fun x => del_keys (f x)) l.
+Proof. induction l as [|x l IH]; cbn [flat_map]; [reflexivity|]. now rewrite del_keys_app, IH. Qed.
+
+Lemma kmem_all_instrs cf eqb d e : forall order, NoDup order ->
+  kmem (key_of e) (del_keys (all_instrs cf eqb d order))
+  = if existsb (Z.eqb (en_id e)) order then kmem (key_of e) (del_keys (entity_instrs cf eqb d (en_id e))) else false.
+Proof.
+  unfold all_instrs. induction order as [|id order IH]; intros Hnd; cbn [flat_map existsb]; [reflexivity|].
+  inversion Hnd as [|? ? Hnotin Hnd']; subst. rewrite del_keys_app, kmem_app, (IH Hnd').
+  destruct (Z.eqb_spec (en_id e) id) as [Heq|Hne]; cbn [orb].
+  - subst id.
+    assert (Hex : existsb (Z.eqb (en_id e)) order = false).
+    { apply not_true_is_false. intros Hex. apply existsb_exists in Hex. destruct Hex as (x & Hx & Hxe).
+      apply Z.eqb_eq in Hxe. subst x. contradiction. }
+    rewrite Hex. now rewrite orb_false_r.
+  - now rewrite (entity_keys_other cf eqb d id e Hne).
+Qed.
+
+Definition ddec (A : list entry) (e : entry) : bool :=
+  match current_of (efeed A) (en_id e) with Some p => identical p (en_c e) | None => false end.
+
+Lemma feed_filter_dedup keep : forall E A,
+  (forall E1 e E2, E = E1 ++ e :: E2 -> keep e = negb (ddec (A ++ E1) e)) ->
+  efeed (filter keep E) = dedup_from (efeed A) (efeed E).
+Proof.
+  induction E as [|e E IH]; intros A H; [reflexivity|].
+  pose proof (H [] e E eq_refl) as He. rewrite app_nil_r in He.
+  cbn [filter efeed map dedup_from]. fold (efeed E).
+  assert (Hrest : efeed (filter keep E) = dedup_from (efeed A ++ [(en_id e, en_c e)]) (efeed E)).
+  { replace (efeed A ++ [(en_id e, en_c e)]) with (efeed (A ++ [e])) by (now rewrite efeed_app).
+    apply IH. intros E1 x E2 HE. rewrite <- app_assoc. cbn [app]. apply (H (e :: E1) x E2). now rewrite HE. }
+  rewrite He. unfold ddec.
+  destruct (current_of (efeed A) (en_id e)) as [p|]; [destruct (identical p (en_c e))|]; cbn [negb efeed map];
+    fold (efeed (filter keep E)); now rewrite Hrest.
+Qed.
+
+Theorem compact_feed fl thr order d :
+  f_lenkeys fl = false -> cinv d -> NoDup order ->
+  (forall id, versions_of d id <> [] -> In id order) ->
+  feed_of (compact_ds cf_fixed fl thr order d) = spec_compact (feed_of d).
+Proof.
+  intros Hfl Hd Hnd Hcov. rewrite compact_one_flush, (compact_eqb_fixed fl Hfl).
+  unfold feed_of, spec_compact, apply_flush. cbn [d_entries]. fold (efeed (d_entries d)).
+  change (@nil (uri * content)) with (efeed []).
+  apply (feed_filter_dedup _ (d_entries d) []). intros E1 e E2 HE. cbn [app]. f_equal.
+  rewrite (kmem_all_instrs _ _ _ _ _ Hnd).
+  assert (Hvs : versions_of d (en_id e) = filter (has_id (en_id e)) E1 ++ e :: filter (has_id (en_id e)) E2).
+  { rewrite versions_of_eq, HE, filter_app. cbn [filter]. unfold has_id at 2. now rewrite Z.eqb_refl. }
+  assert (Hin : existsb (Z.eqb (en_id e)) order = true).
+  { apply existsb_exists. exists (en_id e). split; [|apply Z.eqb_refl]. apply Hcov. rewrite Hvs.
+    intros Hnil. apply app_eq_nil in Hnil. destruct Hnil as [_ Hn]. discriminate. }
+  rewrite Hin.
+  assert (Hsv : ksorted (versions_of d (en_id e))) by (apply ksorted_filter, (ci_sorted _ Hd)).
+  rewrite Hvs in Hsv. pose proof (ksorted_mid_keys _ _ _ Hsv) as Hkeys.
+  unfold ddec. rewrite current_of_last_entry, last_entry_versions.
+  unfold entity_instrs. rewrite Hvs.
+  destruct (filter (has_id (en_id e)) E1) as [|f L1] eqn:EL1; cbn [app last_opt option_map].
+  - (* e is the entity's first version: never removed *)
+    apply pass_keys_absent. intros x Hx. rewrite vkey_eqb_sym. apply Hkeys. exact Hx.
+  - rewrite (pass_char e _ L1 f f (identical_refl _)).
+    + unfold lastc. destruct (last_opt L1); reflexivity.
+    + intros x Hx. rewrite vkey_eqb_sym. apply Hkeys. cbn [app]. right. exact Hx.
+Qed.
+
+Lemma last_opt_nonempty {A} (x : A) l : last_opt (x :: l) <> None.
+Proof. cbn [last_opt]. destruct (last_opt l); discriminate. Qed.
+
+(** the compactor visits the entities that have a latest pointer: under the invariant these are all entities with versions *)
+Lemma cinv_cover d id : cinv d -> versions_of d id <> [] -> assoc id (d_latest d) <> None.
+Proof.
+  intros Hd Hv. rewrite (ci_ptr _ Hd), last_entry_versions. change (filter (has_id id) (d_entries d)) with (versions_of d id).
+  destruct (versions_of d id) as [|x l]; [contradiction|].
+  destruct (last_opt (x :: l)) eqn:E; [discriminate | now apply last_opt_nonempty in E].
+Qed.
+
+(** C12_invisible, all clauses for the complete run *)
+Theorem compact_invisible_full fl thr order d :
+  f_lenkeys fl = false -> cinv d -> NoDup order ->
+  (forall id, assoc id (d_latest d) <> None -> In id order) ->
+  let d' := compact_ds cf_fixed fl thr order d in
+  feed_of d' = spec_compact (feed_of d)
+  /\ cinv d'
+  /\ (forall id, oc_same (stored_latest d' id) (stored_latest d id) = true)
+  /\ (forall id, oc_same (current_of (feed_of d') id) (current_of (feed_of d) id) = true).
+Proof.
+  intros Hfl Hd Hnd Hcov d'.
+  pose proof (compact_invisible fl thr order d Hfl Hd Hnd) as Hr. fold d' in Hr.
+  split; [|split; [exact (ir_inv _ _ Hr) | split]].
+  - apply compact_feed; auto. intros id Hv. apply Hcov. now apply cinv_cover.
+  - now apply inv_rel_latest.
+  - intros id. rewrite <- !vlastc_current. apply (ir_last _ _ Hr).
 Qed.
